@@ -1425,7 +1425,13 @@ def iterNext : Nat → Nat → Node → Node → IterSt → M (Val × IterSt)
       -- iterator function: the iterable expression is evaluated again for every step
       match ← attemptE (eval f ls it) with
       | .ok v => pure (v, .reeval)
-      | .error (Sig.iter _ cur) => pure (.num cur, .reeval)
+      | .error (Sig.iter e cur) =>
+        -- Go takes the RESULT of evaluating the iterable together with the iterator signal: the current
+        -- value when the iterable is the call of the iterator function itself, nil when the signal was
+        -- raised deeper (`for i in r()` with `func r() { return range(1, 2) }`, `range(3) + 1`)
+        match it.tok with
+        | some t => if e.line == t.line && e.pos == t.col then pure (.num cur, .reeval) else pure (.null, .reeval)
+        | none => pure (.null, .reeval)
       | .error e => throw e
     | .list r l i =>
       if i ≥ l then throw (rtErr tBreak loopNode)
